@@ -90,4 +90,26 @@ if kind in ('alloc_bad','alloc_ok'):
       }
     if( tab == nullptr ) { %s }
     value = as_fixed( tab[index & 0xff] );''' % fallback,1)
+if kind in ('tls_reentrant_ok','tls_reentrant_bad'):
+    # per-thread last-result memo; the ok variant refuses to touch it while a call on this thread is already inside (a signal
+    # handler's nested call computes directly), the bad variant is the plain two-word memo
+    guard_in = 'if( sq_tl_busy ) return sqrt_aprox_impl(value);\n    sq_tl_busy = true;' if kind=='tls_reentrant_ok' else ''
+    guard_out = 'sq_tl_busy = false;' if kind=='tls_reentrant_ok' else ''
+    s=s.replace('  fixed_t sqrt_aprox(fixed_t value) noexcept\n    {','''  static fixed_t sqrt_aprox_impl(fixed_t value) noexcept;
+  static thread_local int64_t sq_tl_key = 0; static thread_local int64_t sq_tl_res = 0; static thread_local bool sq_tl_valid = false; static thread_local bool sq_tl_busy = false;
+  fixed_t sqrt_aprox(fixed_t value) noexcept
+    {
+    %s
+    fixed_t r = value;
+    if( sq_tl_valid && sq_tl_key == value.v ) r = as_fixed(sq_tl_res);
+    else
+      {
+      r = sqrt_aprox_impl(value);
+      sq_tl_valid = false; sq_tl_key = value.v; sq_tl_res = r.v; sq_tl_valid = true;
+      }
+    %s
+    return r;
+    }
+  static fixed_t sqrt_aprox_impl(fixed_t value) noexcept
+    {''' % (guard_in, guard_out),1)
 open(p,'w').write(s)
